@@ -19,6 +19,12 @@ PROP = [  # (substring of the commit subject, property ids)
     ("Polygon.circle_parameters raised", "C14 (also C04)"), ("fixed_point(max_eigval=False) / fixed_point_pair", "C15"),
     ("regular_surface_polygon raised", "C13"), ("HorosphereArc.circle_parameters paired", "C14"),
     ("eigenvectors of non-real eigenvalues", "C15"),
+    ("IdealPoint.from_angle no longer truncates", "C12"), ("standard_rotation/elliptic no longer truncate", "C12 (also C02)"),
+    ("utils.normalize accepts integer-typed", "C12 (also C02, C01)"), ("Transformation(nested list, column_vectors=True)", "C12"),
+    ("origin_to(force_oriented=True) no longer depends", "C12 (also C13)"), ("CP1Disk(center, rad) is centered", "C20"),
+    ("CP1Disk.intersects uses the right mask", "C20"), ("sphere_parameters(model=HALFSPACE) reports nan", "C19 (also C14)"),
+    ("Fox calculus (differential, cocycle_matrix) worked character", "C05"), ("subgroup(compute_inverse=False) reversed", "C05"),
+    ("Transformation.apply transforms dual data", "C03"),
     ("symmetric_square called", "C05"), ("parse_simple", "C05"), ("parse_word(simple=False)", "C05"),
     ("integer-dtype representation", "C05 (also C12)"), ("_build_in_dict", "C09"), ("add_edges", "C09"), ("add_vertices creates a plain dict", "C09 (also C10)"), ("end_state", "C06"),
     ("from_angle", "C12"), ("standard_rotation", "C12"), ("integer", "C12"), ("CP1Disk", "C20"), ("intersects", "C20"),
